@@ -24,7 +24,9 @@ PKG = os.path.join(REPO, 'bitstring')
 OPTION_NAMES = {'lsb0', 'bytealigned', 'mxfp_overflow', 'no_color', '_lsb0', '_bytealigned', '_mxfp_overflow'}
 META = {'explanation': 'Read-effect (frame) contracts over the AST call graph decide purity of every memoised function; '
                        'a bounded run-time interleaving test cross-checks the analysis.'}
-EXTRA_TASKS = ['effects', 'dispatch_tables', 'runtime_crosscheck']
+EXTRA_TASKS = ['effects', 'dispatch_tables', 'cached_values_not_mutated', 'runtime_crosscheck']
+# 'what was later done to previously returned objects': the ownership contracts (a cached store never reaches a mutable owner)
+ALSO_PROPS = ['C04', 'C01', 'C16']
 
 
 import re as _re
@@ -360,6 +362,74 @@ def dispatch_tables(tier='quick', seed=0):
             'summary': f'{len(rebound)} dispatch attributes'}
 
 
+MUTATORS = {'append', 'extend', 'insert', 'pop', 'remove', 'reverse', 'sort', 'clear', 'update', 'setdefault', 'popitem', '__setitem__', '__delitem__'}
+
+
+def cached_values_not_mutated(tier='quick', seed=0):
+    """E3: a (mutable) value returned by a memoised function is never mutated by a caller -- taint analysis: the result of a
+    call to a cached function (also through tuple unpacking and plain re-binding `x = y`) must not be the receiver of a mutating
+    method, the target of an augmented assignment or of an item/slice assignment, in any function of the package."""
+    fns, by_name, trees = load()
+    cached = {f.node.name for f in fns.values() if f.cached}
+    obligations = []
+    for q, g in sorted(fns.items()):
+        tainted = {}
+        order = [n for n in ast.walk(g.node) if isinstance(n, (ast.Assign, ast.AugAssign, ast.Expr, ast.For))]
+        order.sort(key=lambda n: (n.lineno, n.col_offset))
+        bad = []
+
+        def is_cached_call(e):
+            return isinstance(e, ast.Call) and ast.unparse(e.func).split('.')[-1] in cached
+        for n in order:
+            if isinstance(n, ast.Assign):
+                src = n.value
+                names = []
+                for t in n.targets:
+                    if isinstance(t, ast.Name):
+                        names.append(t.id)
+                    elif isinstance(t, (ast.Tuple, ast.List)):
+                        names += [e.id for e in t.elts if isinstance(e, ast.Name)]
+                    elif isinstance(t, ast.Subscript) and isinstance(t.value, ast.Name) and t.value.id in tainted:
+                        bad.append((n.lineno, f'item assignment on {t.value.id}'))
+                if is_cached_call(src):
+                    for nm in names:
+                        tainted[nm] = n.lineno
+                elif isinstance(src, ast.Name) and src.id in tainted:
+                    for nm in names:
+                        tainted[nm] = n.lineno
+                else:
+                    for nm in names:
+                        tainted.pop(nm, None)
+            elif isinstance(n, ast.AugAssign):
+                if isinstance(n.target, ast.Name) and n.target.id in tainted:
+                    bad.append((n.lineno, f'augmented assignment to {n.target.id}'))
+            elif isinstance(n, ast.Expr) and isinstance(n.value, ast.Call) and isinstance(n.value.func, ast.Attribute):
+                f = n.value.func
+                if f.attr in MUTATORS and isinstance(f.value, ast.Name) and f.value.id in tainted:
+                    bad.append((n.lineno, f'{f.value.id}.{f.attr}(...)'))
+        if tainted or bad:
+            ob = {'id': f'C09/{q}/E3-values-obtained-from-a-cache-are-not-mutated', 'backend': 'static', 'kind': 'public', 'qualname': q,
+                  'clause': 'E3', 'shape': 'all-paths', 'verdict': 'proved' if not bad else 'refuted'}
+            if bad:
+                ob['witness'] = {'reproduced': _run_demo(_LISTFMT_DEMO) if q == 'methods.pack' else False,
+                                 'python': _LISTFMT_DEMO if q == 'methods.pack' else 'FAILS = False',
+                                 'qualname': q, 'shape': 'all-paths', 'inputs': {'mutations': bad[:3]}}
+            obligations.append(ob)
+    return {'id': 'C09.escape', 'obligations': obligations, 'functions': sorted({o['qualname'] for o in obligations}),
+            'summary': f'{len(obligations)} functions hold a value obtained from a cache'}
+
+
+_LISTFMT_DEMO = _COLD + '''
+clear_all()
+first = outcome(lambda: bitstring.pack(['uint:8', 'bin:3'], 5, '101').bin)
+again = outcome(lambda: bitstring.pack(['uint:8', 'bin:3'], 5, '101').bin)
+single = outcome(lambda: bitstring.pack('uint:8', 5).bin)
+clear_all()
+cold = outcome(lambda: bitstring.pack('uint:8', 5).bin)
+FAILS = first != again or single != cold
+'''
+
+
 def runtime_crosscheck(tier='quick', seed=0):
     """B: warm-vs-cold comparison over random interleavings (bounded; not the deciding step)"""
     import bitstring
@@ -376,6 +446,10 @@ def runtime_crosscheck(tier='quick', seed=0):
         calls.append(('BitArray(%r).bin' % t, lambda t=t: bitstring.BitArray(t).bin))
     for nm, ln in (('uint', 8), ('hex', 4), ('float', 32), ('bytes', 2), ('float', 17)):
         calls.append((f'repr(Dtype({nm!r},{ln}))', lambda nm=nm, ln=ln: repr(bitstring.Dtype(nm, ln))))
+    for lf in (['uint:8', 'bin:3'], ['hex:8', 'uint:4', 'bool'], ['<H', 'uint8']):
+        vals = {('uint:8', 'bin:3'): (5, '101'), ('hex:8', 'uint:4', 'bool'): ('ab', 3, True), ('<H', 'uint8'): (7, 9)}[tuple(lf)]
+        calls.append((f'pack({lf!r})', lambda lf=lf, vals=vals: bitstring.pack(list(lf), *vals).bin))
+        calls.append((f'pack({lf[0]!r})', lambda lf=lf, vals=vals: bitstring.pack(lf[0], vals[0]).bin))
     for f in ('uint8, hex', '2*(bin3)', '<HH', 'int4, bits'):
         calls.append((f'unpack({f!r})', lambda f=f: [str(x) for x in bitstring.Bits('0x12345678').unpack(f)]))
     failures = []
